@@ -140,7 +140,7 @@ def compare(ref, got, names=True):
 
 def check(pid: str, tier: str, seed: int):
     rng = random.Random(seed * 67867979 + 18)
-    violations, metas, cases39, cases_sc, cases_ld = [], [], [], [], []
+    violations, metas, cases39, cases_sc, cases_ld, cases_pl = [], [], [], [], [], []
     formats = {}
     with C.Scratch() as scratch:
         impl = C.import_impl()
@@ -228,6 +228,11 @@ def check(pid: str, tier: str, seed: int):
                     pv.append('sCAD: the loader returned no model for a model the native loader accepts')
                 else:
                     pv += ['sCAD: ' + v for v in compare(ref, resolved(sm))]
+                    if L is not None:
+                        try:
+                            cases_pl.append(f'({LG.c_lang(L)}, {PMIO.c_content(content)}, {PMIO.c_content(PMIO.content_of(sm))})')
+                        except Exception:
+                            pass
             except Exception as e:
                 pv.append(f'sCAD: the loader raised {type(e).__name__} on a model the native loader accepts')
             if L is not None:
@@ -240,6 +245,10 @@ def check(pid: str, tier: str, seed: int):
         extra = {'LOOKUP': 'count_true (fun c : lang * content * scad => scad_lookup_ok (fst (fst c)) (snd (fst c))) cases'}
         badsc, counters, errsc = C.run_cases('C18S', IMPORTS + ' Lang LangGraph Classes', 'lang * content * scad', chksc, cases_sc, extra, shard=30)
         badld, cnt_ld, errld = C.run_cases('C18L', PMIO.LOAD_IMPORTS, PMIO.LOAD_TYPE, PMIO.LOAD_CHECK, cases_ld, PMIO.LOAD_EXTRA, shard=60)
+        badpl, _, errpl = C.run_cases('C18P', PMIO.LOAD_IMPORTS + ' PairLoad', 'lang * content * content',
+                                      'Definition check (c : lang * content * content) : bool := pairs_load_check c.', cases_pl, None, shard=60)
+        badld = badld + badpl
+        errld = errld + errpl
     errors = err39 + errsc + errld
     if errors:
         violations.append({'message': 'the correspondence could not be evaluated', 'cause': 'coq-error', 'correspondence': 'corr_C18_legacy', 'errors': errors[:3]})
@@ -256,7 +265,7 @@ def check(pid: str, tier: str, seed: int):
                            'cause': 'model-mismatch', 'correspondence': 'corr_C18_legacy (Legacy.legacy39_check / scad_check / ModelLoad.load on the 0.0.39 content)',
                            'mismatching_cases': len(bad39) + len(badsc) + len(badld), 'by_stream': {'0.0.39': len(bad39), 'sCAD': len(badsc), 'rebuild': len(badld)}})
     nontriv = {json.dumps(m['content'], default=str) for m in metas if m['content'][2] and m['content'][3]}
-    cov = {'evaluations': len(cases39) + len(cases_sc) + len(cases_ld), 'distinct_nontrivial': len(nontriv), 'rebuild_cases': len(cases_ld), 'rebuild_loadable': cnt_ld.get('LOADABLE', 0),
+    cov = {'evaluations': len(cases39) + len(cases_sc) + len(cases_ld) + len(cases_pl), 'distinct_nontrivial': len(nontriv), 'rebuild_cases': len(cases_ld), 'scad_rebuild_cases': len(cases_pl), 'rebuild_loadable': cnt_ld.get('LOADABLE', 0),
            'rule': 'random languages (inheritance, shared association names) and native models with explicit / negative ids, links between '
                    'sub-types, self links, attackers with several entry points per attacker and per asset, plus coreLang with the shipped example '
                    'models; each is written in the 0.0.39 layout (json / yml / yaml; defenses listed fully or only when set; associations nested or '
